@@ -672,6 +672,105 @@ class Inliner:
             out.extend(self.rewrite_stmt(s, fi, names, depth))
         return out
 
+    def _expand_cm_class(self, w: ast.With, fi, names, depth):
+        """`with C(a, b) as v: BODY` for a class C that is new w.r.t. the inventory, has only __init__ (plain
+        `self.f = <param>` stores), __enter__ and __exit__ (which never suppresses the exception):
+             f__k = a ... ; <__enter__ body, its return value bound to v> ; try: BODY finally: <__exit__ body>"""
+        call = w.items[0].context_expr
+        if not isinstance(call.func, ast.Name):
+            return None
+        inv = load_inventory()
+        known_c = set(inv.get("classes") or [])
+        cls = None
+        for c in self.repo.classes_named(call.func.id):
+            if c.qual not in known_c and c.module is fi.module:
+                cls = c
+        if cls is None or not {"__enter__", "__exit__"} <= set(cls.methods) or set(cls.methods) - {"__init__", "__enter__", "__exit__"}:
+            return None
+        if any(k.arg is None for k in call.keywords) or any(isinstance(a, ast.Starred) for a in call.args):
+            return None
+        self.counter += 1
+        tag = "__c%d" % self.counter
+        fields = {}
+        pre = []
+        init = cls.methods.get("__init__")
+        if init is not None:
+            prm = _params(init.node)
+            if prm is None:
+                return None
+            pos, kwo, defaults = prm
+            pos = pos[1:]
+            binding = dict(zip(pos, call.args))
+            for k in call.keywords:
+                binding[k.arg] = k.value
+            for p_ in pos + kwo:
+                if p_ not in binding:
+                    if p_ not in defaults:
+                        return None
+                    binding[p_] = defaults[p_]
+            for st in _strip_doc_local(init.node.body):
+                if isinstance(st, ast.Assign) and len(st.targets) == 1 and isinstance(st.targets[0], ast.Attribute) \
+                        and isinstance(st.targets[0].value, ast.Name) and st.targets[0].value.id == "self":
+                    val = copy.deepcopy(st.value)
+                    val = _Subst({}, {k: v for k, v in binding.items()}).visit(val)
+                    loc = st.targets[0].attr.lstrip("_") + tag
+                    fields[st.targets[0].attr] = loc
+                    pre.append(ast.copy_location(ast.Assign(targets=[ast.Name(id=loc, ctx=ast.Store())], value=val), w))
+                elif isinstance(st, ast.Pass):
+                    continue
+                else:
+                    return None
+        elif call.args or call.keywords:
+            return None
+
+        class F(ast.NodeTransformer):
+            def visit_Attribute(self_, n):
+                self_.generic_visit(n)
+                if isinstance(n.value, ast.Name) and n.value.id == "self" and n.attr in fields:
+                    return ast.copy_location(ast.Name(id=fields[n.attr], ctx=n.ctx), n)
+                return n
+
+        def body_of(m):
+            b = [F().visit(copy.deepcopy(x)) for x in _strip_doc_local(m.node.body)]
+            if any(isinstance(x, ast.Name) and x.id == "self" for y in b for x in ast.walk(y)):
+                raise NotInlinable("context manager uses self beyond its constructor fields")
+            return b
+        try:
+            enter = body_of(cls.methods["__enter__"])
+            exit_ = body_of(cls.methods["__exit__"])
+        except NotInlinable:
+            return None
+        # __exit__ must not suppress: no `return <truthy>`
+        for x in exit_:
+            for r in [x] + list(_walk_own_stmt(x)):
+                if isinstance(r, ast.Return) and r.value is not None and not (isinstance(r.value, ast.Constant) and not r.value.value):
+                    return None
+        exit_ = [x for x in exit_ if not isinstance(x, ast.Return)]
+        if any(isinstance(r, ast.Return) for x in exit_ for r in _walk_own_stmt(x)):
+            return None
+        as_var = w.items[0].optional_vars
+        ent_out = []
+        ret_val = None
+        for x in enter:
+            if isinstance(x, ast.Return):
+                ret_val = x.value
+                break
+            if any(isinstance(r, ast.Return) for r in _walk_own_stmt(x)):
+                return None
+            ent_out.append(x)
+        if as_var is not None:
+            ent_out.append(ast.copy_location(ast.Assign(targets=[as_var], value=ret_val if ret_val is not None else ast.Constant(value=None)), w))
+        tr = ast.Try(body=list(w.body), handlers=[], orelse=[], finalbody=exit_ or [ast.Pass()])
+        ast.copy_location(tr, w)
+        out = pre + ent_out + [tr]
+        for x in out:
+            ast.fix_missing_locations(x)
+        self.cm_classes = getattr(self, "cm_classes", []) + [cls.qual]
+        holder = ast.Module(body=out, type_ignores=[])
+        if depth < MAX_DEPTH:
+            self.rewrite_block_owner(holder, fi, names | _all_names(holder), depth + 1)
+        return holder.body
+
     def _site(self, callee, ok, why=""):
         d = self.inlined_sites if ok else self.left_sites
         d[callee.qual] = d.get(callee.qual, 0) + 1
@@ -684,6 +783,11 @@ class Inliner:
         # compound statements: recurse first
         if isinstance(s, (ast.If, ast.For, ast.AsyncFor, ast.While, ast.Try, ast.With, ast.AsyncWith)) or hasattr(s, "cases"):
             self.rewrite_block_owner(s, fi, names, depth)
+        # with <new context-manager CLASS>(...) as v:  ->  fields bound, __enter__ body, try: BODY finally: __exit__ body
+        if isinstance(s, ast.With) and len(s.items) == 1 and isinstance(s.items[0].context_expr, ast.Call):
+            out = self._expand_cm_class(s, fi, names, depth)
+            if out is not None:
+                return out
         # with <new context manager>(...) as v:
         if isinstance(s, ast.With) and len(s.items) == 1 and isinstance(s.items[0].context_expr, ast.Call):
             r = self.resolve(s.items[0].context_expr, fi)
@@ -772,6 +876,12 @@ class Inliner:
                 _replace_node(s, c, ast.copy_location(ast.Name(id=tmp, ctx=ast.Load()), c))
                 return pre + self.rewrite_stmt(s, fi, names | {tmp}, depth)
         return [s]
+
+
+def _strip_doc_local(body):
+    if body and isinstance(body[0], ast.Expr) and isinstance(body[0].value, ast.Constant) and isinstance(body[0].value.value, str):
+        return body[1:]
+    return body
 
 
 def _dotted(e) -> Optional[str]:
